@@ -229,10 +229,10 @@ func c17dump(d *c17data) string {
 		for _, q := range db.blockedQueries {
 			bq = append(bq, fmt.Sprintf("%v/%s/%v", q.duty, q.pubKey, cancelled(q.cancel)))
 		}
-		extra = strings.Join(bq, ";")
+		extra = strings.Join(bq, ";") + schedx.ExtraState(db, "data", "keysByDuty", "commands", "queries", "blockedQueries", "queryCallback", "quit", "deadliner")
 	case *MemDBV2:
 		add(db.data)
-		extra = fmt.Sprintf("n%d", len(db.notify))
+		extra = fmt.Sprintf("n%d", len(db.notify)) + schedx.ExtraState(db, "RWMutex", "data", "keysByDuty", "deadliner", "closed", "notify")
 	}
 	sort.Strings(keys)
 	return strings.Join(keys, ";") + "|" + extra
